@@ -15,6 +15,9 @@ Q(q) == [recips |-> [i \in 1..Len(q.recips) |-> [id |-> q.recips[i][1], v |-> q.
 X(x) == [ins |-> [i \in 1..Len(x.ins) |-> [t |-> x.ins[i][1], n |-> x.ins[i][2], v |-> x.ins[i][3]]],
          outs |-> [i \in 1..Len(x.outs) |-> [v |-> x.outs[i][1], key |-> x.outs[i][2], rid |-> x.outs[i][3]]],
          fee |-> x.fee, vsize |-> x.vsize]
+TRep(l) == [i \in 1..Len(l) |-> [t |-> l[i][1], conf |-> l[i][2],
+                                   ins |-> [j \in 1..Len(l[i][3]) |-> [t |-> l[i][3][j][1], n |-> l[i][3][j][2]]],
+                                   outs |-> [j \in 1..Len(l[i][4]) |-> [n |-> l[i][4][j][1], v |-> l[i][4][j][2], key |-> l[i][4][j][3]]]]]
 Keys(l) == {[id |-> l[i][1], change |-> l[i][2], acct |-> l[i][3]] : i \in 1..Len(l)}
 
 \* state after event e, or the clause that forbids it: [ok, s, why]
@@ -23,6 +26,9 @@ Step(s0, e) ==
   CASE e.op \in {"key", "reopen", "observe"} -> [ok |-> TRUE, s |-> s, why |-> "", dev |-> ""]
     [] e.op = "utxo_add" -> [ok |-> TRUE, s |-> UtxosUpdate(s, Rep(e.rep), FALSE), why |-> "", dev |-> ""]
     [] e.op = "utxos_update" -> [ok |-> TRUE, s |-> UtxosUpdateA(s, Rep(e.rep), e.rescan, e.acct), why |-> "", dev |-> ""]
+    [] e.op = "txs_update" -> [ok |-> TRUE, why |-> "", dev |-> "",
+                               s |-> IF e.prov = "ok" THEN Refresh(TxsUpdate(s, TRep(e.rep)), [i \in 1..Len(e.confs) |-> [t |-> e.confs[i][1], conf |-> e.confs[i][2]]])
+                                     ELSE TxsUpdate(s, TRep(e.rep))]
     [] e.op = "tx" ->
          LET q == Q(e.q) IN
          IF ~e.created THEN [ok |-> TRUE, s |-> s, why |-> "", dev |-> ""]        \* refusing is always allowed (C07 forbids wrong transactions)
